@@ -117,6 +117,71 @@ def miri(drv, prop, seed, nproc=12, per=40, many_seeds=4):
     return extra, viol, inc
 
 
+def memcheck(drv, prop, seed, nproc=16, per=6000, maxlen=6000):
+    """Slices of the differential input sequence through the hooked release binary under valgrind
+    memcheck (invalid reads/writes, use of uninitialised values, bad frees — in the crate's two
+    unsafe lines and in the unsafe code of its dependencies: lexical-core number parsing, smol_str,
+    phf, unicode-ident tables), each compared with the native run. Leak checking is off: the
+    harness keeps its own tables alive. A tool failure is inconclusive."""
+    t0 = time.time()
+    extra, viol, inc = {}, [], []
+    bins = drv.build_many(["rel"])
+    if not bins.get("rel"):
+        return extra, viol, ["harness build failed"]
+    exe = bins["rel"]
+
+    def args(i):
+        a = ["seq", prop, "--seed", str(seed), "--from", str(i * per), "--n", str(per), "--maxlen", str(maxlen)]
+        if i != 0:
+            a.append("--no-fixed")
+        return a
+
+    def one(i):
+        try:
+            p = subprocess.run(["valgrind", "--tool=memcheck", "--error-exitcode=99", "--leak-check=no", "--quiet", "--num-callers=12", exe] + args(i),
+                               env=drv.ENV, stdout=subprocess.PIPE, stderr=subprocess.PIPE, text=True, timeout=3600, errors="replace")
+        except subprocess.TimeoutExpired:
+            return i, None, "watchdog"
+        except OSError as e:
+            return i, None, "valgrind not runnable: %s" % e
+        return i, p, None
+
+    with ThreadPoolExecutor(max_workers=16) as ex:
+        results = list(ex.map(one, range(nproc)))
+    compared, reports = 0, 0
+    for (i, p, err) in results:
+        if err:
+            inc.append("memcheck slice %d: %s" % (i, err))
+            continue
+        blocks = [b for b in re.split(r"\n(?===\d+== \n)", p.stderr or "") if re.search(r"==\d+== (Invalid|Conditional jump|Use of uninit|Mismatched|Source and dest|Argument|Syscall param|Process terminating)", b)]
+        if p.returncode == 99 or blocks:
+            reports += max(1, len(blocks))
+            txt = blocks[0] if blocks else (p.stderr or "")
+            first = next((l for l in txt.splitlines() if re.search(r"Invalid|Conditional|uninit|Mismatched|overlap|Argument|Syscall|terminating", l)), "memcheck error")
+            first = re.sub(r"==\d+== ", "", first).strip()
+            where = next((re.sub(r"==\d+==\s+(at|by) 0x[0-9A-F]+: ", "", l).strip() for l in txt.splitlines() if "sas_lexer" in l or "lexical" in l or "smol_str" in l), "")
+            viol.append(("memcheck", _viol("%s.memcheck|%s|%s" % (prop, re.sub(r"\d+", "#", first)[:100], re.sub(r"\(.*$", "", where)[:100]),
+                                           "%s.memcheck" % prop, (first + " @ " + where)[:400], ["(memcheck slice %d, seed %d)" % (i, seed)])))
+            continue
+        rows, _, done = parse_seq(p.stdout)
+        if not done:
+            inc.append("memcheck slice %d did not finish (exit %s): %s" % (i, p.returncode, (p.stderr or "")[-300:].replace("\n", " | ")))
+            continue
+        n = subprocess.run([exe] + args(i), env=drv.ENV, stdout=subprocess.PIPE, stderr=subprocess.DEVNULL, text=True)
+        nrows, _, _ = parse_seq(n.stdout)
+        for key, val in rows.items():
+            compared += 1
+            if key not in nrows:
+                viol.append(("memcheck", _viol("%s.memcheck-diff|generator" % prop, "%s.memcheck-diff" % prop, "input sequence differs under valgrind (slice %d)" % i)))
+                break
+            if nrows[key][0] != val[0]:
+                viol.append(("memcheck-vs-rel", _viol("%s.build-diff|memcheck-vs-rel|%s/%s" % (prop, val[1].split(" ")[0], nrows[key][1].split(" ")[0]),
+                                                      "%s.build-diff" % prop, "input #%s: run under valgrind gives %s, native gives %s" % (key[0], val[1], nrows[key][1]))))
+    extra["memcheck"] = {"tool": "valgrind --tool=memcheck on the hooked release build", "processes": nproc, "inputs_run_and_compared_with_native": compared,
+                         "error_reports": reports, "wall_s": round(time.time() - t0, 1)}
+    return extra, viol, inc
+
+
 def tsan(drv, seed, scale=0.03):
     t0 = time.time()
     extra, viol, inc = {}, [], []
